@@ -144,11 +144,14 @@ PROPS["C03"] = dict(
     level_note=SYMEX_NOTE + "K-PTRACE (stops, wait4, ESRCH on non-stopped tracees, TRACEFORK auto-attach) is a contract model of ptrace(2); that Linux honours it is outside.",
     explanation="trace()/handle()/handleTrap() run on symbolic event streams from the K-PTRACE model with a monitor; see harness zz_verif_c03.go.",
     bounds={"events": "<=4 events quick (2 processes), <=6 events thorough (3 processes)", "verdict": "any 64-bit TraceAction", "schedules": "canceller goroutine interleavings, preemption bound 2"},
-    outside=["launcher ordering PTRACE_TRACEME/SIGSTOP before seccomp load (see C04 machinery)", "the return value seen by the program (rax) is set by runner/ptrace.softBanSyscall: checked in C15 handler harness", "kernel ptrace semantics themselves"],
+    outside=["the return value seen by the program (rax) is set by runner/ptrace.softBanSyscall: checked in C15 handler harness", "kernel ptrace semantics themselves"],
     assumptions=["K-PTRACE contract"],
     harnesses=[
         dict(pkg=PT, run="^VerifC03_Trace_Quick$", tiers=["quick", "thorough"], replay="model", reach=["ban-enforced", "allow-resumed", "kill-verdict"], timeout=900),
         dict(pkg=PT, run="^VerifC03_MultiProc$", tiers=["quick", "thorough"], replay="model", reach=["ban-enforced", "allow-resumed", "kill-verdict"], timeout=900),
+        # launcher side (C03-g): PTRACE_TRACEME and the self-stop precede the filter load for every option set with ptrace
+        dict(pkg=FE, run="^VerifC04_OptionsBundled_p1$", tiers=["quick", "thorough"], replay="model", preempt=0, timeout=1500, reach=["stops-first"]),
+        dict(pkg=FE, run="^VerifC04_OptionsBundled_p3$", tiers=["quick", "thorough"], replay="model", preempt=0, timeout=1500, reach=["stops-first"]),
         dict(pkg=PT, run="^VerifC03_Trace_Quick5$", tiers=["thorough"], replay="model", timeout=3000, max_paths=3000000),
         dict(pkg=PT, run="^VerifC03_Trace_Thorough$", tiers=["thorough"], replay="model", timeout=20000, max_paths=30000000),
     ],
@@ -267,6 +270,8 @@ PROPS["C11"] = dict(
     harnesses=[
         dict(pkg=US, run="^VerifC11_UnshareCancel$", replay="model", preempt=2, reach=["returned", "killed", "ended-by-itself"]),
         dict(pkg=PT, run="^VerifC11_PtraceCancel$", replay="model", preempt=2, reach=["returned"]),
+        # the canceller's kill landing between a stop notification and the tracer's next ptrace request (ESRCH at any request)
+        dict(pkg=PT, run="^VerifC15_TraceESRCH$", replay="model", reach=["vanished"], timeout=900),
         dict(pkg=CT, run="^VerifC10_Ops1Cancel$", replay="model", preempt=1, timeout=1500, reach=["cancelled-run", "program-verdict"]),
     ],
 )
@@ -400,6 +405,8 @@ PROPS["C20"] = dict(
         dict(pkg="./pkg/cgroup", run="^VerifC20_V1ConcurrentNew$", replay="model", preempt=2, reach=["both-done"]),
         dict(pkg="./pkg/cgroup", run="^VerifC20_Readers$", replay="model", preempt=0, timeout=900, reach=["cpu-valid", "cpu-malformed", "cpu-missing-field", "mem-valid", "missing-file"]),
         dict(pkg="./pkg/cgroup", run="^VerifC20_Writers$", replay="model", preempt=0, reach=["addproc", "memlimit", "proclimit"]),
+        dict(pkg="./pkg/cgroup", run="^VerifC20_V1Lifecycle$", replay="model", preempt=0, reach=["created"]),
+        dict(pkg="./pkg/cgroup", run="^VerifC20_AddProcMany$", replay="model", preempt=0, timeout=900, reach=["two-pids"]),
     ],
 )
 
